@@ -13,7 +13,7 @@
 //! FAIL classes: c03-poll-panicked, c03-poll-hang, c03-no-echo-reply.
 //!
 //! Case format (replayable):
-//!   case <id> medium=<ip|eth|154>
+//!   case <id> medium=<ip|eth|154> [ck=tx]
 //!   f <dt_ms> <hex frame>          deliver the frame, poll
 //!   l <dt_ms> <k> | j <dt_ms> <k>  leave / (re)join multicast group k (see `group`), poll
 //!   b <dt_ms> <n>                  device back-pressure: n tx tokens left (255 = unlimited), poll
@@ -73,7 +73,23 @@ struct Node {
 }
 
 fn mk_node(medium: Medium, last: u8, seed: u64) -> Node {
+    mk_node_ck(medium, last, seed, false)
+}
+
+/// `ck_tx_only`: the device "verifies checksums in hardware" - the stack fills checksums on transmit but does
+/// not verify them on receive (Checksum::Tx for every protocol), so mutated packet bodies reach the code behind
+/// the checksum gates (Interface::new captures the capabilities once).
+fn mk_node_ck(medium: Medium, last: u8, seed: u64, ck_tx_only: bool) -> Node {
     let mut dev = QDev::new(medium, mtu_of(medium));
+    if ck_tx_only {
+        let mut c = smoltcp::phy::ChecksumCapabilities::default();
+        c.ipv4 = smoltcp::phy::Checksum::Tx;
+        c.udp = smoltcp::phy::Checksum::Tx;
+        c.tcp = smoltcp::phy::Checksum::Tx;
+        c.icmpv4 = smoltcp::phy::Checksum::Tx;
+        c.icmpv6 = smoltcp::phy::Checksum::Tx;
+        dev.checksum = c;
+    }
     let mut cfg = Config::new(hw(medium, last));
     cfg.random_seed = seed;
     cfg.pan_id = Some(Ieee802154Pan(0xbeef));
@@ -625,7 +641,11 @@ fn group(medium: Medium, k: usize) -> IpAddress {
 
 /// bring the target into a state with an established and a connecting TCP socket etc.
 fn warm_target(medium: Medium) -> Node {
-    let mut a = mk_node(medium, 1, 11);
+    warm_target_ck(medium, false)
+}
+
+fn warm_target_ck(medium: Medium, ck_tx_only: bool) -> Node {
+    let mut a = mk_node_ck(medium, 1, 11, ck_tx_only);
     for k in 0..3 {
         let _ = a.iface.join_multicast_group(group(medium, k));
     }
@@ -684,10 +704,11 @@ fn run_case(c: &Case) -> Option<(String, String)> {
         })
         .collect();
     let cid = c.id.clone();
+    let ck_tx_only = c.get("ck") == Some("tx");
     let (txch, rxch) = std::sync::mpsc::channel();
     let th = std::thread::Builder::new().stack_size(16 << 20).spawn(move || {
         let r = std::panic::catch_unwind(std::panic::AssertUnwindSafe(|| {
-            let mut a = warm_target(medium);
+            let mut a = warm_target_ck(medium, ck_tx_only);
             let mut now: i64 = 1000;
             for (k, (dt, op)) in frames.iter().enumerate() {
                 now += dt;
@@ -886,7 +907,12 @@ fn main() {
                                 }
                             })
                             .collect();
-                        Case { id: format!("z{}-{}", seed, i), cfg: vec![("medium".into(), medium_name(m).into())], ops }
+                        let mut cfg: Vec<(String, String)> = vec![("medium".into(), medium_name(m).into())];
+                        // every third case of a medium: receive checksums are not verified by the stack
+                        if (i / 3) % 3 == 2 {
+                            cfg.push(("ck".into(), "tx".into()));
+                        }
+                        Case { id: format!("z{}-{}", seed, i), cfg, ops }
                     })
                     .collect()
             };
